@@ -43,11 +43,22 @@ def generate(tier, seed, casedir, variant):
                 c = with_injection(base, "update", k)
             c["fault_at"] = k
             cfgs.append(c)
+    # a NaN gradient absorbed by the optimizer (zero_nans): no parameter becomes NaN, the loop goes on and the returned
+    # parameters are the last ones -- at the last iteration, and right before an update that is NaN for good
+    for j, (origin, k, k2) in enumerate([("grad_eq", n - 1, None), ("grad_nn", n - 1, None), ("grad_eq", 2, 3), ("grad_nn", 1, 2)][: (4 if tier == "thorough" else 3)]):
+        base = S.base_cfg(rng, S.KINDS[j % 3], n=n)
+        base["opt"] = "zn_adam"; base["track"] = True; base["rar"] = False
+        c = with_injection(base, origin, k)
+        if c is None:
+            continue
+        c["fault_at"] = k
+        cfgs.append(c)
     r = run_all(cfgs, casedir, variant, "C18")
     r["rule"] = ("fault injected at iteration k (every k of 0..n-1 in the thorough tier) from each origin: NaN optimizer update, NaN loss value, NaN gradient of a network leaf, NaN gradient of an equation parameter, and a NaN confined to a bookkeeping leaf of the optimizer state (no parameter is NaN: training runs to the end) "
                  "(thresholds placed on the un-faulted trajectory); loss kinds and optimizers rotated; non-trivial = at least two iterations executed")
     for o in ORIGINS:
         r["distribution"][f"origin={o}"] = sum(1 for c in cfgs if c["inject"]["origin"] == o)
+    r["distribution"]["absorbed_by_zero_nans"] = sum(1 for c in cfgs if c["opt"] == "zn_adam")
     return r
 
 
